@@ -493,6 +493,16 @@ static int cabd_read_headers(struct mspack_system *sys,
         /* this folder's "merge prev" pointer is set once the entry is kept */
         mergeprev = (struct mscabd_folder_p *) file->folder;
       }
+
+      /* a file continued from the previous AND into the next cabinet lies in
+       * a folder that is both the first and the last folder of this cabinet.
+       * With several folders the entry is bad: kept, the last folder's
+       * "merge next" would point at a file of the first folder, which
+       * cabd_merge() frees when it merges that folder away */
+      if (mergenext && mergeprev && (mergenext != mergeprev)) {
+        D(("file continues from previous and to next cabinet, but cabinet has several folders"))
+        file->folder = NULL;
+      }
     }
 
     /* get time */
